@@ -603,13 +603,19 @@ class DAGRunConcurrentManager(DAGRunManagerLike):
         except KeyError as ex:
             await self.__raise_exc(SwitchDoesNotHaveCaseError(node_id, ex.args[0]))
 
-        return await self._run_dag(
+        result = await self._run_dag(
             dag=self._get_reduced_dag(
                 self.dag.input_node,
                 (self._node_storage.get_switch_result(node_id)).node_id,
                 is_oneof=dag.is_oneof,
             ),
         )
+
+        # The selected case could have been calculated before the switch was resolved (e.g. for another consumer).
+        # In that case nobody notifies the consumers of the switch afterwards, so we have to do it here.
+        await self.__unlock_descendants(node_id)
+
+        return result
 
     async def _run_node(
         self,
